@@ -7,14 +7,19 @@ MC      MC_Xfr (Xfr.tla on itself): every AXFR / IXFR stream of the bounded univ
         x optional envelope after the end: the end point is unique (no proper prefix of a complete transfer is
         complete); the receiver machine (first, n, axfr, serial, macPrev, timersOnly) stops exactly where the
         grammar says; no fault => everything delivered, no error, nothing read past the closing SOA;
-        fault => error, never "complete", exactly the envelopes before the fault delivered.
+        fault => error, never "complete", exactly the envelopes before the fault delivered.  The consumer of the
+        channel is a process of its own (Consumer = TRUE: actions Recv / Consume / Close): however slow it is, it
+        holds every delivered envelope and the error when the channel closes (Handoff).
+        Faults on signed transfers include hdrid: header ID rewritten after signing, original ID kept (MAC still
+        verifies, the ID check must not).
 GEN     Gen_Xfr (= MC_Xfr with EmitBehaviours, sharded, invariants on) exports every behaviour with the expected observation -> `xfr replay`: envelopes
         framed with the real Pack (+ real TsigGenerate chain) onto a scripted in-memory connection (closed or
         silent at the end; cut at 5 octet positions), real Transfer.In, channel drained: records per envelope,
         error, channel closed, connection closed, octets left unread.  Every behaviour is delivered as fed, one
         octet per read, and with a segment boundary between the two length octets of every envelope; a sample
         with one boundary at EVERY stream offset; a sample with the first / middle / last envelope padded (filler
-        TXT in the additional section) to 4095, 4096, 4097, 4098, 16384 and 65000 wire octets.
+        TXT in the additional section) to exactly 4095, 4096, 4097, 16383, 16384, 16385, 65534 and 65535 wire
+        octets; a sample run with ReadTimeout 40 ms and a consumer pausing 300 ms after its k-th envelope, every k.
 TV in   `xfr record in`: random transfers beyond the bounds (<= 40 records, <= 5 difference sequences, empty
         envelopes, <= 2 faults) -> Trace_Xfr predicts the observation.
 TV out  `xfr record out`: real dns.Server on an in-memory listener, handler = Transfer.Out, one to three requests
@@ -55,6 +60,9 @@ Mutants (checks/mutants/C15, each must give exit 1):
   ixfr-serial-integer-compare     (reverts fix a3ad563) GEN (incomplete-reported-complete / uptodate-answer-not-recognised)
   mac-truncation-accepted         (seeded change C15-2) GEN (fault-not-reported:macempty / mac1 / mac9 / mac10), TV in
   readmsg-small-buffer-retry      (seeded change C15-8: envelopes > 4096 octets mis-read) GEN (padded-envelope sample), TV in
+  id-check-uses-origid            (seeded change C15-10) GEN (fault-not-reported:hdrid), TV in
+  timed-handoff-drops-envelopes   (seeded change C15-11) GEN slow-consumer sample (xfr/in-slow-consumer-*), TV in
+  frame-size-off-by-one           (seeded change C15-12) GEN (65535-octet envelopes), TV in
   length-prefix-single-read       (seeded change C15-9) GEN ("prefix" / "byte" segmentation of every behaviour), TV in
   server-timersonly-not-reset     (seeded change C15-3) TV out (tsig judge: accepts-invalid:mac:server-out on the 2nd answer of a connection)
 """
@@ -65,7 +73,7 @@ PAR = int(os.environ.get("VERIF_PAR", "8"))     # parallel TLC / harness process
 from checks import c11
 
 QUICK = {"MaxRecs": 2, "SerialIds": "{1, 2, 3, 4}", "TsigModes": "{FALSE, TRUE}", "Empties": "FALSE"}
-SMALL = {"MaxRecs": 1, "SerialIds": "{2, 3, 4}", "TsigModes": "{FALSE, TRUE}", "Empties": "TRUE"}
+SMALL = {"MaxRecs": 1, "SerialIds": "{2, 3, 4}", "TsigModes": "{FALSE, TRUE}", "Empties": "FALSE"}
 EMPTQ = {"MaxRecs": 1, "SerialIds": "{1}", "TsigModes": "{FALSE, TRUE}", "Empties": "TRUE"}
 EMPT = {"MaxRecs": 1, "SerialIds": "{1, 3, 5, 7}", "TsigModes": "{FALSE, TRUE}", "Empties": "TRUE"}
 FULL = {"MaxRecs": 3, "SerialIds": "{1, 2, 3, 4, 5, 6, 7}", "TsigModes": "{FALSE, TRUE}", "Empties": "FALSE"}
@@ -73,7 +81,7 @@ FULL = {"MaxRecs": 3, "SerialIds": "{1, 2, 3, 4, 5, 6, 7}", "TsigModes": "{FALSE
 
 def mc(ctx, consts, workers=4):
     c = dict(consts)
-    c.update({"EmitBehaviours": "FALSE", "Shard": 0, "NShards": 1})
+    c.update({"EmitBehaviours": "FALSE", "Consumer": "TRUE", "Shard": 0, "NShards": 1})
     ctx.tlc("MC_Xfr", workers=workers, xmx="4g", timeout=3000, consts=c)
 
 
@@ -120,7 +128,7 @@ def run(ctx):
     binp = ctx.build("xfr")
     tsigbin = ctx.build("tsig")
     if ctx.quick:
-        sh = [(ctx.seed + 4 * i) % 16 for i in range(4)]
+        sh = [(ctx.seed + 5 * i) % 16 for i in range(3)]
         vp.parallel([
             lambda: mc(ctx, SMALL),
             lambda: gen(ctx, binp, QUICK, 16, sh),
